@@ -97,19 +97,9 @@ class dump:
         and self._named_schemas == old.self._named_schemas and self.options == old.self.options)
 
 
-@target(W, "write_data", behavior="anydatum")
-class write_data_anydatum:
-    """ASSUMED (trusted = True): whatever the datum, write_data only ever appends to the
-    encoder's stream -- also when it raises part-way.  (Follows from the append-only
-    contracts of every encoder method; not re-proved for arbitrary data.)"""
-    trusted = True
-    types = dict(encoder="BinaryEncoder", datum="py", schema="py", named_schemas="dict", fname="py", options="dict")
-    requires = lambda encoder: encoder._fo.pos == len(encoder._fo.data)
-    modifies = ["encoder._fo"]
-    raises = [R("Exception", must=False,
-                ensures=lambda encoder: encoder._fo.data.startswith(old.encoder._fo.data))]
-    ensures = lambda encoder, result: (
-        encoder._fo.data.startswith(old.encoder._fo.data) and encoder._fo.pos == len(encoder._fo.data))
+# write_data[anydatum] -- "whatever the datum, only appends, also when it raises" -- was an ASSUMED contract here; it is
+# now generated together with the anydatum behaviour of every writer and encoder method and VERIFIED
+# (contracts/write_anydatum.py, tools_gen_anydatum.py).
 
 
 @target(W, "Writer.write")
@@ -153,14 +143,19 @@ class write:
 
 @target(W, "Writer.write", behavior="anydatum")
 class write_anydatum:
-    """C07: a write that fails contributes nothing -- buffer, count and file are as before"""
+    """C07: a write that fails contributes nothing -- buffer, count and file are as before -- whatever the record
+    (any Python value); the schema is well-formed, without logical types"""
     types = dict(self="Writer", record="py")
     requires = lambda self, record: (
-        self.encoder._fo.pos == len(self.encoder._fo.data)
+        is_data(record)
+        and self.encoder._fo.pos == len(self.encoder._fo.data)
         and self.io._fo.pos == len(self.io._fo.data)
         and 0 <= self.block_count and self.block_count < S.LONG_MAX
         and isinstance(self.sync_interval, int)
-        and (self.compression_level is None or isinstance(self.compression_level, int)))
+        and (self.compression_level is None or isinstance(self.compression_level, int))
+        and A.WF(self.schema, self._named_schemas)
+        and implies(isinstance(self.schema, dict), "logicalType" not in self.schema)
+        and A.DEFAULTS_DATA(self.schema, self._named_schemas, self.options))
     modifies = ["self"]
     call_behaviors = dict(write_data="anydatum", dump="default")
     raises = [R("Exception", must=False,
